@@ -228,10 +228,7 @@ def check(src, rep):
                 try:
                     ok_ = le.call_lambda(ex.node, [ctx], "cosem") if isinstance(ex.node, (ast.Lambda, ast.FunctionDef)) else le.eval_this(ex.node, ctx, "cosem")
                 except NotConstant as e:
-                    if "of None" in str(e):
-                        ok_ = True  # needs a whole parse context (conditional members): decided by the context rule below
-                    else:
-                        raise Undecided(f"Check of DateTime outside the evaluable subset: {e}")
+                    ok_ = True  # needs a whole parse context (conditional members) or the datetime library itself: decided by the context rule below
                 if not ok_ and not badc:
                     badc += 1
                     rep.violation("R1", "cosem.DateTime", "check-rejects-valid", "a Check of the date-time struct rejects a valid date-time with a specified time of day: such clocks (e.g. a meter clock reset to an early year) are not decoded at all",
@@ -267,7 +264,32 @@ def _computed(rep, le, comp, file, dt=None):
                             ctx[m_.name] = le.call_lambda(m_.a["expr"].node, [ctx], "cosem")
                     got = le.call_lambda(lam.node, [ctx], "cosem")
                 except NotConstant as e:
-                    raise Undecided(f"datetime lambda outside the evaluable subset: {e}")
+                    # not a plain constructor expression (helpers, tables of time zones, replace()): evaluated with the datetime library itself on this cell
+                    import datetime as _dt
+                    RE = _RealEval(le.M)
+                    try:
+                        ctx2 = Ctx(dict(ctx))
+                        real = RE.call_lambda(lam.node, [ctx2], "cosem", extra=dict(RE.module_env("cosem")))
+                    except _MemberRaises as ex_:
+                        if bad < 3:
+                            bad += 1
+                            rep.violation("R4", "cosem.DateTime", "computed:raises", f"building the datetime raises {ex_.cls} for a valid transmitted date-time", file, comp.line,
+                                          witness=f"hundredths={hund} deviation={dev} daylight_flag={dst}: {ex_}")
+                        n += 1
+                        continue
+                    except NotConstant as e2:
+                        raise Undecided(f"datetime lambda outside the evaluable subset: {e}; with the datetime library: {e2}")
+                    n += 1
+                    want_real = _dt.datetime(2021, 7, 15, 13, 37, 58, 0 if hund is None else hund * 10000, tzinfo=None if dev is None else _dt.timezone(_dt.timedelta(minutes=-dev)))
+                    same = isinstance(real, _dt.datetime) and (real.tzinfo is None) == (want_real.tzinfo is None) and real == want_real and real.utcoffset() == want_real.utcoffset()
+                    if not same and bad < 3:
+                        bad += 1
+                        k_ = "microsecond" if isinstance(real, _dt.datetime) and real.microsecond != want_real.microsecond else "tzinfo" if isinstance(real, _dt.datetime) and real.utcoffset() != want_real.utcoffset() else "instant"
+                        what_ = {"microsecond": "microseconds are not hundredths x 10000 (0 when unspecified)", "tzinfo": "the UTC offset is not minus the deviation / no time zone when the deviation is unspecified"}.get(
+                            k_, "the civil fields are not the transmitted ones")
+                        rep.violation("R4", "cosem.DateTime", f"computed:{k_}", f"the decoded datetime differs from the transmitted instant: {what_}", file, comp.line,
+                                      witness=f"hundredths={hund} deviation={dev} daylight_flag={dst}: {real!r} expected {want_real!r}")
+                    continue
                 n += 1
                 if isinstance(got, Sym) and got[1] != "datetime.datetime":
                     # built by date-time arithmetic (datetime + timedelta ...): the constructors are pure library functions, so the expression is
@@ -335,6 +357,12 @@ class _RealEval(LamEval):
         import datetime as _dt
         if isinstance(e, ast.Name) and e.id == "datetime" and e.id not in env:
             return _dt
+        if isinstance(e, ast.Name):
+            v_ = env.get(e.id)
+            if v_ is None and e.id not in env and mod in self.M.mods:
+                v_ = self.module_env(mod).get(e.id)
+            if type(v_).__name__ == "Opaque" and getattr(v_, "what", "") == "external datetime":
+                return _dt  # `import datetime`: the library itself
         if isinstance(e, ast.Attribute):
             base = self.eval(e.value, env, mod)
             if base is _dt or isinstance(base, (_dt.datetime, _dt.date, _dt.time, _dt.timedelta, _dt.timezone, type)) and getattr(base, "__module__", "datetime") == "datetime":
